@@ -10,6 +10,7 @@
   an index ≥ n would make Go panic on `vset[index]` and is modelled as `panic`.
 -/
 import Goloop.Base.Bytes
+import Goloop.Model.C04
 namespace Goloop.C05
 
 inductive Res where
@@ -47,5 +48,41 @@ def verifyBlock {Item : Type} (signerOf : Item → Option Nat) (bootstrap : Bool
     | some none => Res.reject
     | some (some vset) =>
       if enoughVote items.length n then Res.ok vset else Res.reject
+
+/-! ### `consensus.processBlock` (fast-synced block): the vote handling
+
+`processBlock` does not call `VerifyBlock`.  It converts the commit vote list with
+`toVoteListWithBlock` (every item must recover to a validator, else reject), adds every vote to
+the height vote set at the signer's validator index (`cs.hvs.add(index, m)`: the precommit vote
+set of the list's round, the `voteSet` of Model/C04, which may already hold votes received from
+the network), and accepts only if that vote set reports a +2/3 decision whose part-set id equals
+the part-set id of the received block.  `psOf d` = the part-set id fixed by decision digest `d`. -/
+
+/-- the acceptance decision after `toVoteList` succeeded; `adds` = (validator index, vote) per item. -/
+def processBlockAccepts (s : C04.VS) (adds : List (Nat × C04.Vote)) (psOf : Nat → Nat) (blockPs : Nat) : Bool :=
+  match C04.decision (C04.addAll s adds) with
+  | C04.Dec.decided d => psOf d == blockPs
+  | _ => false
+
+inductive PB where
+  | accept
+  | rejectToVoteList     -- toVoteList: "not a validator" / bad signature
+  | rejectNoQuorum       -- "no +2/3 precommits made for block"
+  | rejectPartSet        -- "invalid blockBPSID"
+  | panic
+deriving DecidableEq, Repr
+
+/-- `processBlock` from the decoded commit vote list on: `signerOf` as for `verifyBlock`,
+    `voteOf it` = the precommit reconstructed from the item (height, list round, list decision,
+    item timestamp). -/
+def processBlock {Item : Type} (signerOf : Item → Option Nat) (voteOf : Item → C04.Vote)
+    (s : C04.VS) (items : List Item) (psOf : Nat → Nat) (blockPs : Nat) : PB :=
+  if items.any (fun it => (signerOf it).isNone) then PB.rejectToVoteList
+  else
+    let adds := items.filterMap (fun it => (signerOf it).map (fun i => (i, voteOf it)))
+    match C04.decision (C04.addAll s adds) with
+    | C04.Dec.decided d => if psOf d == blockPs then PB.accept else PB.rejectPartSet
+    | C04.Dec.no => PB.rejectNoQuorum
+    | C04.Dec.panic => PB.panic
 
 end Goloop.C05
